@@ -77,3 +77,120 @@ Proof.
   tree_cases H; inversion H; subst;
     first [ apply orientation_change_skew; assumption | apply zeros_skew ].
 Qed.
+
+(* ------------------------------------------------------------------------- *)
+(* volume-fraction rates, any number of grains                               *)
+(* ------------------------------------------------------------------------- *)
+Definition rsum (l : list R) : R := fold_right Rplus 0 l.
+
+Lemma fold_left_add_R (l : list R) (a : R) : fold_left (@add NumR) l a = a + rsum l.
+Proof.
+  revert a; induction l as [|x xs IH]; intros a; cbn [fold_left rsum fold_right].
+  - numR. ring.
+  - rewrite IH. numR. unfold rsum. ring.
+Qed.
+
+Lemma sumf_R (l : list R) : @sumf NumR l = rsum l.
+Proof.
+  destruct l as [|x xs]; [reflexivity|].
+  unfold sumf. rewrite fold_left_add_R. reflexivity.
+Qed.
+
+Definition rate1 (c : option R) (phi M m f e : R) : R :=
+  match c with None => phi * M * f * (m - e) | Some c => phi * M * f * (c * (m - e)) end.
+
+Lemma frac_rates_R c phi M fs es :
+  @frac_rates NumR c phi M fs es
+  = map2 (rate1 c phi M (rsum (map2 Rmult fs es))) fs es.
+Proof.
+  unfold frac_rates. rewrite sumf_R. destruct c; reflexivity.
+Qed.
+
+Definition cfac (c : option R) : R := match c with None => 1 | Some c => c end.
+
+Lemma rsum_rates c phi M m fs es : length fs = length es ->
+  rsum (map2 (rate1 c phi M m) fs es)
+  = cfac c * phi * M * (m * rsum fs - rsum (map2 Rmult fs es)).
+Proof.
+  revert es; induction fs as [|f fs IH]; intros [|e es] Hl; try discriminate Hl.
+  - cbn. ring.
+  - cbn [map2 rsum fold_right]. injection Hl as Hl.
+    fold (rsum (map2 (rate1 c phi M m) fs es)). rewrite (IH es Hl).
+    fold (rsum fs). fold (rsum (map2 Rmult fs es)).
+    destruct c; cbn [rate1 cfac]; ring.
+Qed.
+
+(* C03: the volume rates sum to zero whenever the fractions sum to one *)
+Theorem volume_rates_sum_zero c phi M fs es :
+  length fs = length es -> rsum fs = 1 ->
+  rsum (@frac_rates NumR c phi M fs es) = 0.
+Proof.
+  intros Hl Hs. rewrite frac_rates_R, rsum_rates by assumption. rewrite Hs. ring.
+Qed.
+
+(* C03: a grain of zero volume has zero volume rate; nth with default 0 *)
+Lemma nth_map2 {A B C} (f : A -> B -> C) l1 l2 i da db dc :
+  (i < length l1)%nat -> (i < length l2)%nat ->
+  nth i (map2 f l1 l2) dc = f (nth i l1 da) (nth i l2 db).
+Proof.
+  revert l2 i; induction l1 as [|a l1 IH]; intros [|b l2] [|i] H1 H2;
+    cbn in *; try lia; try reflexivity. apply IH; lia.
+Qed.
+
+Theorem dead_grain c phi M fs es i :
+  (i < length fs)%nat -> length fs = length es -> nth i fs 0 = 0 ->
+  nth i (@frac_rates NumR c phi M fs es) 0 = 0.
+Proof.
+  intros Hi Hl H0. rewrite frac_rates_R. change (T NumR) with R in *.
+  rewrite (nth_map2 _ _ _ _ 0 0 0) by lia. rewrite H0.
+  destruct c; cbn [rate1]; ring.
+Qed.
+
+Lemma map2_ext_scale {A B} (f g : A -> B -> R) k l1 l2 :
+  (forall a b, g a b = k * f a b) -> map2 g l1 l2 = map (Rmult k) (map2 f l1 l2).
+Proof.
+  intros H; revert l2; induction l1 as [|a l1 IH]; intros [|b l2]; cbn; try reflexivity.
+  rewrite H, IH; reflexivity.
+Qed.
+
+(* C03: linear in the mobility and in the phase volume fraction *)
+Theorem rates_linear_M c phi M k fs es :
+  @frac_rates NumR c phi (k * M) fs es = map (Rmult k) (@frac_rates NumR c phi M fs es).
+Proof.
+  rewrite !frac_rates_R. apply map2_ext_scale. intros f e; destruct c; cbn [rate1]; ring.
+Qed.
+
+Theorem rates_linear_phi c phi M k fs es :
+  @frac_rates NumR c (k * phi) M fs es = map (Rmult k) (@frac_rates NumR c phi M fs es).
+Proof.
+  rewrite !frac_rates_R. apply map2_ext_scale. intros f e; destruct c; cbn [rate1]; ring.
+Qed.
+
+Lemma rate1_zero_M c phi m fs es i :
+  nth i (map2 (rate1 c phi 0 m) fs es) 0 = 0.
+Proof.
+  revert es i; induction fs as [|f fs IH]; intros [|e es] [|i]; cbn [map2 nth]; try reflexivity.
+  - destruct c; cbn [rate1]; ring.
+  - apply IH.
+Qed.
+
+Theorem rates_zero_M c phi fs es i :
+  nth i (@frac_rates NumR c phi 0 fs es) 0 = 0.
+Proof. rewrite frac_rates_R. apply rate1_zero_M. Qed.
+
+(* C03: a grain grows exactly when its energy is below the volume weighted mean *)
+Theorem grows_iff_below_mean c phi M fs es i :
+  (i < length fs)%nat -> length fs = length es ->
+  0 < cfac c -> 0 < phi * M * nth i fs 0 ->
+  let emean := rsum (map2 Rmult fs es) in
+  (0 < nth i (@frac_rates NumR c phi M fs es) 0 <-> nth i es 0 < emean).
+Proof.
+  intros Hi Hl Hc Hpos emean. rewrite frac_rates_R. change (T NumR) with R in *.
+  rewrite (nth_map2 _ _ _ _ 0 0 0) by lia. fold emean.
+  set (f := nth i fs 0) in *. set (e := nth i es 0).
+  destruct c as [c|]; cbn [rate1 cfac] in *.
+  - split; intros H.
+    + assert (0 < c * (emean - e)) by nra. nra.
+    + assert (0 < c * (emean - e)) by nra. nra.
+  - split; intros H; nra.
+Qed.
